@@ -928,12 +928,20 @@ func c03NoChangeExits(c *core.Ctx, R string, fn *an.Fn, calls []an.Call) {
 		})
 		okGuard := false
 		if guard != nil {
-			for _, cj := range conjuncts(guard) {
-				for _, dj := range disjuncts(cj) {
-					if be, ok := an.Unparen(dj).(*ast.BinaryExpr); ok && (be.Op == token.EQL || be.Op == token.LEQ || be.Op == token.LSS) {
-						if (fn.Canon(be.Y) == "0" || fn.Canon(be.Y) == "1") && measure(be.X, after) {
-							okGuard = true
-						}
+			// the guard in conjunctive form (negations pushed inwards): some clause must contain "the change is empty"
+			for _, clause := range cnf(guard, false) {
+				for _, lit := range clause {
+					be, ok := an.Unparen(lit.e).(*ast.BinaryExpr)
+					if !ok {
+						continue
+					}
+					op := be.Op
+					if lit.neg {
+						op = map[token.Token]token.Token{token.EQL: token.NEQ, token.NEQ: token.EQL, token.LSS: token.GEQ, token.GEQ: token.LSS, token.GTR: token.LEQ, token.LEQ: token.GTR}[op]
+					}
+					k := fn.Canon(be.Y)
+					if ((op == token.EQL || op == token.LEQ) && k == "0" || op == token.LSS && k == "1") && measure(be.X, after) {
+						okGuard = true
 					}
 				}
 			}
@@ -952,4 +960,37 @@ func disjuncts(e ast.Expr) []ast.Expr {
 		return append(disjuncts(b.X), disjuncts(b.Y)...)
 	}
 	return []ast.Expr{e}
+}
+
+type c03Lit struct {
+	e   ast.Expr
+	neg bool
+}
+
+// cnf returns e (negated when neg) as a conjunction of clauses of literals; !, && and || are interpreted,
+// everything else is a literal. Small guards only (the product is not bounded).
+func cnf(e ast.Expr, neg bool) [][]c03Lit {
+	e = an.Unparen(e)
+	switch x := e.(type) {
+	case *ast.UnaryExpr:
+		if x.Op == token.NOT {
+			return cnf(x.X, !neg)
+		}
+	case *ast.BinaryExpr:
+		and := x.Op == token.LAND && !neg || x.Op == token.LOR && neg
+		or := x.Op == token.LOR && !neg || x.Op == token.LAND && neg
+		if and {
+			return append(cnf(x.X, neg), cnf(x.Y, neg)...)
+		}
+		if or {
+			var out [][]c03Lit
+			for _, a := range cnf(x.X, neg) {
+				for _, b := range cnf(x.Y, neg) {
+					out = append(out, append(append([]c03Lit{}, a...), b...))
+				}
+			}
+			return out
+		}
+	}
+	return [][]c03Lit{{{e, neg}}}
 }
